@@ -5,9 +5,9 @@ package main
 import (
 	"fmt"
 	"go/ast"
-	"os"
 	"go/token"
 	"go/types"
+	"os"
 	"sort"
 	"strings"
 
@@ -77,8 +77,19 @@ func findLoops(fn *ssa.Function) map[*ssa.BasicBlock]*loopInfo {
 		})
 		sort.SliceStable(stmts, func(i, j int) bool { return stmts[i].Pos() < stmts[j].Pos() })
 		if len(stmts) == len(hs) {
+			var ord []*loopInfo
+			var hdrs []string
 			for i, h := range hs {
 				loops[h].lexStart, loops[h].lexEnd = stmts[i].Pos(), stmts[i].End()
+				loops[h].hdr = loopHeaderText(fn.Prog.Fset, stmts[i])
+				loops[h].stmt = stmts[i]
+				ord = append(ord, loops[h])
+				hdrs = append(hdrs, loops[h].hdr)
+			}
+			if applyAnchors(fn, ord, hdrs) {
+				for _, li := range ord {
+					li.reanchored = true
+				}
 			}
 		}
 	}
@@ -403,7 +414,7 @@ func (ex *Exec) pushEdge(fr *Frame, from, to *ssa.BasicBlock, st *State, incomin
 			if li.spec == nil || len(li.spec.AtExit) == 0 || !inRegion(from) || inRegion(to) {
 				continue
 			}
-			name := fmt.Sprintf("%s#loop%d", funcKey(ex.top.fn), li.number)
+			name := ex.loopName(fr, li)
 			fr.curLoop = li.number
 			for _, ae := range li.spec.AtExit {
 				g := ex.specBool(fr, st, ae)
@@ -418,9 +429,10 @@ func (ex *Exec) pushEdge(fr *Frame, from, to *ssa.BasicBlock, st *State, incomin
 // ---- loops ------------------------------------------------------------------------
 
 func (ex *Exec) loopHead(fr *Frame, li *loopInfo, st *State) {
-	name := fmt.Sprintf("%s#loop%d", funcKey(ex.top.fn), li.number)
-	if fr != ex.top {
-		// loops in inlined callees are not supported (callee must have a contract)
+	name := ex.loopName(fr, li)
+	if fr != ex.top && !(isNewFunction(fr.fn) || os.Getenv("GOCV_INLINE_LOOPS") != "") {
+		// loops in inlined callees are only run for helpers that appeared after the contracts were written
+		// (cut at the head like any loop, with the invariant "true"); otherwise the callee must have a contract
 		panic(unsupported("loop in inlined function " + funcKey(fr.fn)))
 	}
 	if li.spec == nil {
@@ -439,7 +451,8 @@ func (ex *Exec) loopHead(fr *Frame, li *loopInfo, st *State) {
 		}
 	}
 	fr.curLoop = li.number
-	defer func() { fr.curLoop = 0 }()
+	fr.atHead = li
+	defer func() { fr.curLoop = 0; fr.atHead = nil }()
 	// init
 	for _, inv := range li.spec.Invariants {
 		g := ex.specBool(fr, st, inv)
@@ -472,10 +485,18 @@ func (ex *Exec) loopHead(fr *Frame, li *loopInfo, st *State) {
 	fr.headSts[li.number] = li.headSt
 }
 
+func (ex *Exec) loopName(fr *Frame, li *loopInfo) string {
+	if fr != ex.top && fr.fn != ex.top.fn {
+		return fmt.Sprintf("%s#inl(%s).loop%d", funcKey(ex.top.fn), fr.fn.Name(), li.number)
+	}
+	return fmt.Sprintf("%s#loop%d", funcKey(ex.top.fn), li.number)
+}
+
 func (ex *Exec) loopBack(fr *Frame, li *loopInfo, st *State, from *ssa.BasicBlock) {
 	fr.curLoop = li.number
-	defer func() { fr.curLoop = 0 }()
-	name := fmt.Sprintf("%s#loop%d", funcKey(ex.top.fn), li.number)
+	fr.atHead = li
+	defer func() { fr.curLoop = 0; fr.atHead = nil }()
+	name := ex.loopName(fr, li)
 	pos := loopPos(li)
 	for _, inv := range li.spec.Invariants {
 		g := ex.specBool(fr, st, inv)
@@ -548,6 +569,9 @@ func (ex *Exec) instrEffects(fn *ssa.Function, in ssa.Instruction, ms *modSet, b
 		ex.addrEffects(x.Addr, ms, binds)
 	case *ssa.MapUpdate:
 		k := x.Map.Type().Underlying().String()
+		if depth > 0 && binds == nil && ex.scanOwn != nil && loopFresh(x.Map, ex.scanOwn) {
+			break
+		}
 		ms.maps[k] = x.Map.Type()
 		if binds == nil && depth == 0 {
 			ms.mapAt[k] = append(ms.mapAt[k], x.Map)
@@ -719,6 +743,9 @@ func (ex *Exec) callEffects(fn *ssa.Function, c *ssa.CallCommon, ms *modSet, bin
 	case *ssa.Builtin:
 		if v.Name() == "delete" || v.Name() == "clear" {
 			k := c.Args[0].Type().Underlying().String()
+			if depth > 0 && binds == nil && ex.scanOwn != nil && loopFresh(c.Args[0], ex.scanOwn) {
+				return
+			}
 			ms.maps[k] = c.Args[0].Type()
 			if binds == nil && depth == 0 {
 				ms.mapAt[k] = append(ms.mapAt[k], c.Args[0])
@@ -793,8 +820,15 @@ func (ex *Exec) callEffects(fn *ssa.Function, c *ssa.CallCommon, ms *modSet, bin
 		ms.allHeap = true
 		return
 	}
-	// only heap effects of a callee matter to the caller: its locals (and those of its closures) are its own
+	// only heap effects of a callee matter to the caller: its locals (and those of its closures) are its own; so is a
+	// map the callee makes itself (writes that reach only such a map change nothing the caller's state knows)
 	sub := newModSet()
+	saveOwn := ex.scanOwn
+	ex.scanOwn = &loopInfo{blocks: map[*ssa.BasicBlock]bool{}}
+	for _, b := range callee.Blocks {
+		ex.scanOwn.blocks[b] = true
+	}
+	defer func() { ex.scanOwn = saveOwn }()
 	for _, b := range callee.Blocks {
 		for _, in := range b.Instrs {
 			switch y := in.(type) {
@@ -824,6 +858,7 @@ func (ex *Exec) callEffects(fn *ssa.Function, c *ssa.CallCommon, ms *modSet, bin
 	}
 	for k, v := range sub.maps {
 		ms.maps[k] = v
+		ms.whole[k] = true // through whatever map of that type the callee can reach
 	}
 	if sub.allHeap {
 		ms.allHeap = true
@@ -906,6 +941,10 @@ func (ex *Exec) contractEffects(ct *Contract, ms *modSet, callee *ssa.Function, 
 				}
 				if _, isMap := p.Type().Underlying().(*types.Map); isMap {
 					k := p.Type().Underlying().String()
+					if depth > 0 && ex.scanOwn != nil && loopFresh(c.Args[i], ex.scanOwn) {
+						ok = true
+						continue
+					}
 					ms.maps[k] = p.Type()
 					if depth == 0 {
 						ms.mapAt[k] = append(ms.mapAt[k], c.Args[i])
@@ -1200,7 +1239,9 @@ func (ex *Exec) isHeapAlloc(a *ssa.Alloc) bool {
 }
 
 // rangeIndexFact recognises the header of a lowered "for range slice" loop
-//   t1 = *rangeindex; t2 = t1 + 1; *rangeindex = t2; t3 = t2 < tLen; if t3 ...
+//
+//	t1 = *rangeindex; t2 = t1 + 1; *rangeindex = t2; t3 = t2 < tLen; if t3 ...
+//
 // and assumes -1 <= rangeindex < max(len, 0) (or rangeindex == -1) at the loop head.
 func (ex *Exec) rangeIndexFact(fr *Frame, li *loopInfo, st *State) {
 	ins := li.header.Instrs
